@@ -772,6 +772,26 @@ func TestCheck(t *testing.T) {
 				}
 			}
 		}
+		// values longer than one option instance (RFC 3396): ordinary values of the option map, as the decoder
+		// reassembles them and as constructors store them
+		for li, n := range []int{65, 128, 254, 255, 256, 257, 300, 305, 510, 511, 600, 1024} {
+			if !r.Mine(k) {
+				k++
+				continue
+			}
+			k++
+			rng := r.Rand("c17.long."+a.name, li)
+			for j := 0; j < r.Pick(6, 200); j++ {
+				v := fills(rng, n, 3+j%2)
+				if a.gen != nil && j%2 == 0 {
+					v = a.gen(rng, n)
+				}
+				judge(r, a, v, "direct")
+				if j%3 == 0 {
+					judge(r, a, v, "wire")
+				}
+			}
+		}
 		if r.Shard == 0 {
 			judge(r, a, nil, "absent")
 			judge(r, a, nil, "direct-empty-nonnil")
@@ -965,6 +985,25 @@ func setGet(r *mon.Rec, idx int) {
 		p.UpdateOption(dhcpv4.OptDomainSearch(&rfc1035label.Labels{Labels: names}))
 		p.UpdateOption(dhcpv4.OptRFC3004UserClass(uc))
 		p.UpdateOption(dhcpv4.OptRelayAgentInfo(dhcpv4.OptGeneric(dhcpv4.AgentCircuitIDSubOption, sub), dhcpv4.OptGeneric(dhcpv4.AgentRemoteIDSubOption, []byte{1, 2, 3})))
+		if rng.IntN(2) == 0 {
+			// the list comes from a received packet, is edited in place (same number of entries) and set again
+			q, err := dhcpv4.FromBytes(p.ToBytes())
+			if err == nil && q.DomainSearch() != nil && len(q.DomainSearch().Labels) == len(names) {
+				l := q.DomainSearch()
+				i := rng.IntN(len(names))
+				names = append([]string{}, names...)
+				switch rng.IntN(2) {
+				case 0:
+					names[i] = rstr(rng, 7) + "q.edited"
+					l.Labels[i] = names[i]
+				default:
+					names[i], names[0] = names[0], names[i]
+					l.Labels[i], l.Labels[0] = l.Labels[0], l.Labels[i]
+				}
+				p.UpdateOption(dhcpv4.OptDomainSearch(l))
+				name += "(parsed, edited in place, set again)"
+			}
+		}
 		want = fmt.Sprintf("%q %q %x 010203", names, uc, sub)
 		get = func(p *dhcpv4.DHCPv4) string {
 			ds := p.DomainSearch()
